@@ -6,7 +6,7 @@ import subprocess
 
 from . import core, gen
 
-ID_CLASSES = ["none", "zero", "dense", "gaps", "dups", "mid", "near_max"]
+ID_CLASSES = ["none", "zero", "dense", "gaps", "dups", "mid", "near_max", "high"]
 
 
 class TreeSpec:
@@ -22,7 +22,7 @@ def safe_feat(rnd, structured):
 
 
 def gen_tree(rnd, nfiles=3, stmts=(0, 12), structured=False, idclass="none", frac_with_id=0.4, eol=None, label="",
-             nearmax_k=None, missing_cap=None):
+             nearmax_k=None, missing_cap=None, complete_prob=0.0, directives=False):
     t = TreeSpec()
     t.files, t.truth, t.gfs = {}, {}, {}
     t.structured = structured
@@ -42,6 +42,9 @@ def gen_tree(rnd, nfiles=3, stmts=(0, 12), structured=False, idclass="none", fra
     elif idclass == "mid":
         c = rnd.choice([2147483647, 2147483648, 65535, 65536, 16777216])
         pool = [c - rnd.randrange(0, 3) for _ in range(rnd.randrange(1, 6))] + [rnd.randrange(1, 100)]
+    elif idclass == "high":
+        c = core.U32MAX - rnd.randrange(5000, 100000)
+        pool = [c - rnd.randrange(0, 50) for _ in range(rnd.randrange(1, 6))] + [rnd.randrange(1, 100)]
     elif idclass == "near_max":
         k = nearmax_k if nearmax_k is not None else rnd.randrange(0, 5)
         pool = [core.U32MAX - k] + [rnd.randrange(1, 1000) for _ in range(rnd.randrange(0, 4))]
@@ -60,25 +63,32 @@ def gen_tree(rnd, nfiles=3, stmts=(0, 12), structured=False, idclass="none", fra
         gf = gen.GenFile(e)
         gf.raw("// %s file %d%s" % (label, fi, e))
         n = rnd.randrange(stmts[0], stmts[1] + 1)
+        complete = idclass != "none" and rnd.random() < complete_prob
         for si in range(n):
             f = safe_feat(rnd, structured)
             if f["post"] == "eof":
                 f["post"] = "semi"
-            with_id = idclass != "none" and (rnd.random() < frac_with_id)
+            with_id = idclass != "none" and (complete or rnd.random() < frac_with_id)
             rid = None
             if with_id and must_place:
                 rid = must_place.pop()
-            elif with_id and pool and idclass in ("dups",):
+            elif with_id and pool and (idclass in ("dups",) or complete):
                 rid = rnd.choice(pool)
             kv_ref = None
+            nokvp = directives and structured and rnd.random() < 0.25
             if rid is not None:
-                if structured:
+                if structured and not nokvp:
                     kv_ref = ("valid", str(rid), rnd.randrange(0, f["nkv"] + 1))
                 else:
                     f["ref"] = "valid"
+            if nokvp:
+                f["pre"] = "indent"
             if rid is None and missing_cap is not None and nmissing >= missing_cap:
                 continue
             pre, st, post = gen.build_stmt(f, "M%s_%d_%d" % (label, fi, si), rnd, eol=e, ref_id=rid, kv_ref=kv_ref)
+            if nokvp:
+                st.note = "nokvp"
+                gf.raw("    " + rnd.choice(["// breadlog:no-kvp", "/* breadlog:no-kvp */", "// BREADLOG:NO-KVP"]) + e)
             gf.add_stmt(pre, st, post)
             gf.newline()
             if rid is not None:
@@ -103,9 +113,14 @@ def gen_tree(rnd, nfiles=3, stmts=(0, 12), structured=False, idclass="none", fra
             gf.newline()
             existing.append(rid)
     for name, gf in t.gfs.items():
+        # the file may end right after its last statement (no trailing newline)
+        if gf.items and rnd.random() < 0.15 and gf._buf and gf._buf[-1] == gf.eol:
+            gf._buf.pop()
+            gf._len -= len(gf.eol)
         t.files[name] = gf.data()
         t.truth[name] = [(it.start, it.end, it.start + it.stmt.msg,
-                          (int(it.stmt.ref_kv) if (structured and it.stmt.ref_kv is not None) else (None if structured else it.stmt.ref_msg)), it) for it in gf.stmts()]
+                          (int(it.stmt.ref_kv) if (structured and it.stmt.ref_kv is not None)
+                           else (it.stmt.ref_msg if (not structured or it.stmt.note == "nokvp") else None)), it) for it in gf.stmts()]
     t.existing = existing
     t.missing = nmissing
     return t
